@@ -1,7 +1,7 @@
 #!/bin/bash
 # usage: tools/eval_seed_scratch.sh <dir containing patch.diff> — like eval_seed.sh, but on a scratch copy of
 # /repo's HEAD (so it can run while something else uses /repo); OCCHECK_BIN selects the checker binary.
-D="$1"; S=$(mktemp -d /tmp/evalseed.XXXXXX); trap 'rm -rf "$S"' EXIT
+D="$(cd "$1" && pwd)"; S=$(mktemp -d /tmp/evalseed.XXXXXX); trap 'rm -rf "$S"' EXIT
 git -C /repo archive HEAD | tar -x -C "$S"
 (cd "$S" && patch -s -p1 < "$D/patch.diff") || { echo "patch does not apply"; exit 2; }
 OCCHECK_REPO="$S" "${OCCHECK_BIN:-/verif/bin/occheck}" scan
